@@ -15,6 +15,7 @@
 package etcd
 
 import (
+	"bytes"
 	"context"
 	"fmt"
 	"time"
@@ -164,7 +165,8 @@ func isCreate(txn *etcdserverpb.TxnRequest) *etcdserverpb.PutRequest {
 		txn.Compare[0].GetModRevision() == 0 &&
 		len(txn.Failure) == 0 &&
 		len(txn.Success) == 1 &&
-		txn.Success[0].GetRequestPut() != nil {
+		txn.Success[0].GetRequestPut() != nil &&
+		bytes.Equal(txn.Compare[0].Key, txn.Success[0].GetRequestPut().Key) {
 		return txn.Success[0].GetRequestPut()
 	}
 	return nil
@@ -175,7 +177,8 @@ func isDelete(txn *etcdserverpb.TxnRequest) (int64, []byte, bool) {
 		len(txn.Failure) == 0 &&
 		len(txn.Success) == 2 &&
 		txn.Success[0].GetRequestRange() != nil &&
-		txn.Success[1].GetRequestDeleteRange() != nil {
+		txn.Success[1].GetRequestDeleteRange() != nil &&
+		bytes.Equal(txn.Success[0].GetRequestRange().Key, txn.Success[1].GetRequestDeleteRange().Key) {
 		rng := txn.Success[1].GetRequestDeleteRange()
 		return 0, rng.Key, true
 	}
@@ -185,7 +188,11 @@ func isDelete(txn *etcdserverpb.TxnRequest) (int64, []byte, bool) {
 		len(txn.Failure) == 1 &&
 		txn.Failure[0].GetRequestRange() != nil &&
 		len(txn.Success) == 1 &&
-		txn.Success[0].GetRequestDeleteRange() != nil {
+		txn.Success[0].GetRequestDeleteRange() != nil &&
+		// a guarded delete names the revision it expects; revision 0 would mean "delete if absent"
+		txn.Compare[0].GetModRevision() > 0 &&
+		bytes.Equal(txn.Compare[0].Key, txn.Success[0].GetRequestDeleteRange().Key) &&
+		bytes.Equal(txn.Compare[0].Key, txn.Failure[0].GetRequestRange().Key) {
 		return txn.Compare[0].GetModRevision(), txn.Success[0].GetRequestDeleteRange().Key, true
 	}
 	return 0, nil, false
@@ -198,7 +205,9 @@ func isUpdate(txn *etcdserverpb.TxnRequest) (int64, []byte, []byte, int64, bool)
 		len(txn.Success) == 1 &&
 		txn.Success[0].GetRequestPut() != nil &&
 		len(txn.Failure) == 1 &&
-		txn.Failure[0].GetRequestRange() != nil {
+		txn.Failure[0].GetRequestRange() != nil &&
+		bytes.Equal(txn.Compare[0].Key, txn.Success[0].GetRequestPut().Key) &&
+		bytes.Equal(txn.Compare[0].Key, txn.Failure[0].GetRequestRange().Key) {
 		return txn.Compare[0].GetModRevision(),
 			txn.Compare[0].Key,
 			txn.Success[0].GetRequestPut().Value,
